@@ -12,6 +12,8 @@
 import LiteFSVerif.Proofs.Image
 import LiteFSVerif.Proofs.Engine
 import LiteFSVerif.Proofs.Log
+import LiteFSVerif.Gen.Skel
+import LiteFSVerif.Model.ExpectedSkel
 
 set_option linter.unusedSimpArgs false
 
@@ -110,5 +112,16 @@ theorem C02_commit_once_in_order (s s' : Eng) (mode : Nat) (h : commitJournalVal
 /-! ### non-vacuity: a grow-and-modify transaction -/
 example : apply [10, 20, 30] (capture [11, 20, 30, 40] [1, 4] 5 5 0 0) = [11, 20, 30, 40] := by decide
 example : apply [10, 20, 30] (capture [11, 20] [1] 5 5 0 0) = [11, 20] := by decide
+
+/-- the control skeletons (branch conditions, loop heads, returns, order of calls and of state
+    assignments) of `DB.WriteDatabaseAt`, `DB.CommitJournal`, `DB.invalidateJournal`, `DB.writeDatabasePage`, regenerated from the current source on every run, are the ones the
+    model was written and validated against (Model/ExpectedSkel.lean): a reordered, dropped or
+    altered check or call in these functions breaks this theorem -/
+theorem C02_source_skeletons :
+    Gen.Skel.DB_WriteDatabaseAt = Expected.Skel.DB_WriteDatabaseAt ∧
+    Gen.Skel.DB_CommitJournal = Expected.Skel.DB_CommitJournal ∧
+    Gen.Skel.DB_invalidateJournal = Expected.Skel.DB_invalidateJournal ∧
+    Gen.Skel.DB_writeDatabasePage = Expected.Skel.DB_writeDatabasePage :=
+  ⟨rfl, rfl, rfl, rfl⟩
 
 end LiteFSVerif.C02
